@@ -19,7 +19,7 @@ class Hit:
 
 class EngineSpec:
     """How a property uses one correspondence engine."""
-    def __init__(self, name, gen, monitor=None, tags=None, corpus=None, quick_n=200, thorough_n=5000, timeout=900, canon=None):
+    def __init__(self, name, gen, monitor=None, tags=None, corpus=None, quick_n=200, thorough_n=5000, timeout=900, canon=None, mask=None):
         self.name = name
         self.gen = gen              # gen(rng, n, tier) -> [History]
         self.monitor = monitor      # monitor(hist, obs) -> [Hit]
@@ -29,6 +29,7 @@ class EngineSpec:
         self.thorough_n = thorough_n
         self.timeout = timeout
         self.canon = canon          # canon(lines) -> lines: engine-specific canonicalisation of implementation output
+        self.mask = mask            # mask(impl_lines, model_lines) -> (impl, model): blank what the model declares outside its domain
 
 
 class PropSpec:
@@ -39,6 +40,13 @@ class PropSpec:
         self.lean_extra = lean_extra or []
         self.rule = rule
         self.statics = statics or []      # extra static checks: fn() -> [Hit] / broken-tie strings
+
+
+def diff_sides(es, io, mo):
+    a = core.compared(io)
+    if es.mask:
+        a, mo = es.mask(a, mo)
+    return core.first_diff(a, mo)
 
 
 def load_corpus(engine_dir):
@@ -161,7 +169,7 @@ def run_property(spec, tier, seed, extract=None):
             if mo is not None:
                 if len(io) < len(h.ops):
                     mo = mo[:len(io)]      # the implementation process died inside this history: compare up to there
-                d = core.first_diff(core.compared(io), mo)
+                d = diff_sides(es, io, mo)
                 if d is not None:
                     disagreements.append((es, h, d, io, mo))
 
@@ -176,7 +184,7 @@ def run_property(spec, tier, seed, extract=None):
             b = core.run_side(core.model_cmd(es.name), hh, timeout=120)[0]
             if len(a) < len(ops):
                 b = b[:len(a)]
-            return core.first_diff(core.compared(a), b) is not None
+            return diff_sides(es, a, b) is not None
         small = core.shrink(es.name, h, still, budget=60 if tier == "quick" else 200)
         hh = [History(small)]
         a = core.run_side(core.impl_cmd(es.name), hh, timeout=120)[0]
@@ -185,7 +193,7 @@ def run_property(spec, tier, seed, extract=None):
         b = core.run_side(core.model_cmd(es.name), hh, timeout=120)[0]
         if len(a) < len(small):
             b = b[:len(a)]
-        dd = core.first_diff(core.compared(a), b) or d
+        dd = diff_sides(es, a, b) or d
         key = (es.name, small[dd[0]].split(" ")[0] if dd[0] < len(small) else "?")
         if key in seen_dis:
             continue
